@@ -16,6 +16,7 @@ RULE = (
     "public entry points x argument roles x aliasing layouts (float64, C-contiguous, already of the target shape; "
     "also int / list / non-contiguous controls) x option combinations enabling in-place arithmetic; store/transform "
     "sequences tracking every array handed out earlier. Non-trivial = at least one float64 contiguous array was passed"
+    " Hostile values (zero / tiny weights, unsorted class values), unrotated anisotropic models, structured CondSRF targets with re-used kriging results."
 )
 ASSUMPTIONS = ["sha1 over the bytes (and mask bytes) of an array detects any change of its contents"]
 LEVEL_TEXT = (
